@@ -156,10 +156,6 @@ func checkC02Sh(t *Toks) string {
 				}
 			}
 			what = kind + "." + cls + "/" + rel
-			// recorded finding: legacy SINGLE|RANGEPROOF serializes the proofs of the blanked earlier outputs
-			if c.algo == "legacy" && single && c.ht&0x40 != 0 && kind == "out" && k < c.idx && (cls == "rangeproof" || cls == "surjectionproof") {
-				what = "earlier-output-proofs-under-single+rangeproof"
-			}
 		}
 		if r := expect("", what, covered, d.digest()); r != "" {
 			return r
